@@ -91,6 +91,7 @@ func (r *remoteKeySet) VerifySignature(ctx context.Context, jws *jose.JSONWebSig
 	if alg == "" {
 		alg = r.defaultAlg
 	}
+	verifPoint(ctx, "jwks:cache")
 	payload, err := r.verifySignatureCached(jws, keyID, alg)
 	if payload != nil {
 		return payload, nil
@@ -169,6 +170,7 @@ func (r *remoteKeySet) keysFromRemote(ctx context.Context) ([]jose.JSONWebKey, e
 	ctx, span := client.Tracer.Start(ctx, "keysFromRemote")
 	defer span.End()
 
+	verifPoint(ctx, "jwks:lock")
 	// Need to lock to inspect the inflight request field.
 	r.mu.Lock()
 	// If there's not a current inflight request, create one.
@@ -179,9 +181,11 @@ func (r *remoteKeySet) keysFromRemote(ctx context.Context) ([]jose.JSONWebKey, e
 		// request. It releases the resource by nil'ing the inflight field
 		// once the goroutine is done.
 		go r.updateKeys(ctx)
+		verifPoint(ctx, "jwks:spawn")
 	}
 	inflight := r.inflight
 	r.mu.Unlock()
+	verifPoint(ctx, "jwks:select")
 
 	select {
 	case <-ctx.Done():
@@ -197,13 +201,16 @@ func (r *remoteKeySet) updateKeys(ctx context.Context) {
 
 	// Sync keys and finish inflight when that's done.
 	keys, err := r.fetchRemoteKeys(ctx)
+	verifPoint(ctx, "jwks:fetched")
 
 	r.inflight.done(keys, err)
+	verifPoint(ctx, "jwks:done")
 
 	// Lock to update the keys and indicate that there is no longer an
 	// inflight request.
 	r.mu.Lock()
 	defer r.mu.Unlock()
+	verifPoint(ctx, "jwks:ulocked")
 
 	if err == nil {
 		r.cachedKeys = keys
@@ -211,6 +218,7 @@ func (r *remoteKeySet) updateKeys(ctx context.Context) {
 
 	// Free inflight so a different request can run.
 	r.inflight = nil
+	verifPoint(ctx, "jwks:published")
 }
 
 func (r *remoteKeySet) fetchRemoteKeys(ctx context.Context) ([]jose.JSONWebKey, error) {
